@@ -432,7 +432,35 @@ pub fn genotypes(ff: (u32, u32), p: Purpose, thorough: bool) -> Vec<Choice> {
 
 /// Everything fixed for one (file format, sample count, IDX mode): models, built header, flattened
 /// slot alphabets.
+/// Per-header constants of the BCF path, computed once: the header block the writer emits, the
+/// header the reader returns for it (with its string maps), and both dictionaries. Every execution
+/// still writes the header (the writer needs it) and the harness verifies that the bytes are the
+/// cached ones before it uses the cached reader header.
+pub struct BcfPre {
+    pub header_bytes: Vec<u8>,
+    pub read_header: noodles_vcf::Header,
+    pub header_text: String,
+    pub dict_text: Result<crate::bcfraw::Dict, String>,
+    pub dict_model: Result<crate::bcfraw::Dict, String>,
+}
+
+impl BcfPre {
+    pub fn new(hdr: &Hdr, header: &noodles_vcf::Header) -> Option<BcfPre> {
+        let header_bytes = crate::io::bcf_write_header_only(header).ok()?;
+        let (read_header, _) = crate::io::bcf_read(&header_bytes, 0).ok()?;
+        let stream = crate::bcfraw::parse_stream(&header_bytes).ok()?;
+        Some(BcfPre {
+            dict_text: crate::bcfraw::dict_from_text(&stream.header_text),
+            dict_model: crate::bcfraw::dict_from_model(hdr),
+            header_text: stream.header_text,
+            header_bytes,
+            read_header,
+        })
+    }
+}
+
 pub struct Env {
+    pub bcf: Option<BcfPre>,
     pub ff: (u32, u32),
     pub purpose: Purpose,
     pub thorough: bool,
@@ -475,7 +503,8 @@ impl Env {
             }
         }
         let gts = genotypes(ff, purpose, thorough);
-        Env { ff, purpose, thorough, hdr, header, info_slot, info_keys, fmt_slot, fmt_keys, gts }
+        let bcf = if purpose == Purpose::Bcf { BcfPre::new(&hdr, &header) } else { None };
+        Env { bcf, ff, purpose, thorough, hdr, header, info_slot, info_keys, fmt_slot, fmt_keys, gts }
     }
 }
 
